@@ -100,6 +100,10 @@ func profileFor(prop, tier string) *Profile {
 		p.OpWeights = weights(map[int]int{OpInsert: 20, OpInsertWatch: 6, OpModify: 15, OpDelete: 14, OpDeleteAll: 5, OpCAS: 14, OpCAD: 14, OpUnlocked: 5, OpReadBack: 10})
 		p.FinishedPct = 25
 		p.GuardZero = true
+		// change iterators come and go: deletes then take the graveyard paths of the write operations
+		p.ConsumersMax = 1
+		p.OpWeights[OpChanges] = 2
+		p.NextsMin, p.NextsMax = 3, 12
 		p.ReadProp = "C03"
 		p.AbortPct = 25
 		p.CommitCheck = true
